@@ -31,7 +31,7 @@ def runOps (ops : List (String × Specs.Def)) : Specs.Coll × List Bool :=
 request   build anc=<a,b;c;_;…>       one `;`-separated entry per node (rank in name order): its direct ancestors
 response  ok order=… ch=…;… an=…;…  |  err:input  |  err:value
 request   coll ops=<name~p | name~l~dep~… | name~i~mean~std | name~o~mean~std | name~m~ded:dep,dep~…>|…      `nv[name] = var` statements in order
-response  ok=<1|0 per statement> keys=<iteration order> defs=<name:dep,dep;…>      (definitions in iteration order, dependencies sorted)
+response  graph=<err:input | err:value | names in graph order> ok=<1|0 per statement> keys=<iteration order> defs=<name:dep,dep;…>      (definitions in iteration order, dependencies sorted)
 -/
 def handle (line : String) : String :=
   match line.splitOn " " with
@@ -52,7 +52,11 @@ def handle (line : String) : String :=
       let ops ← if a == "-" then some [] else (a.splitOn "|").mapM parseOp
       let (c, oks) := runOps ops
       let defs := Specs.definitions c
-      some s!"ok={fmtList fmtBool oks} keys={fmtList encName (Specs.keys c)} defs={";".intercalate (defs.map fun (d : String × List String) => encName d.1 ++ ":" ++ fmtList encName (Specs.sortNames d.2))}").getD "bad-request"
+      let g := match Specs.fromDict c with
+        | .error .input => "err:input"
+        | .error .value => "err:value"
+        | .ok order => fmtList encName order
+      some s!"graph={g} ok={fmtList fmtBool oks} keys={fmtList encName (Specs.keys c)} defs={";".intercalate (defs.map fun (d : String × List String) => encName d.1 ++ ":" ++ fmtList encName (Specs.sortNames d.2))}").getD "bad-request"
   | _ => "bad-request"
 
 def main : IO Unit := loop handle
